@@ -99,6 +99,19 @@ def cases(ctx):
         yield {"op": rng.choice(["erode", "dilate"]), "dtype": dtype, "shape": shape, "vals": gen.rand_values(rng, dtype, gen.size(shape)),
                "kind": "default-element", "code": code, "layout": rng.choice(LAYOUTS),
                "warm": rng.choice(["regmax", "regmin", "locmax", "locmin", "label", "open", "close", "cwatershed", None])}
+    # elements with an axis of length zero (an empty neighbourhood: erosion gives the largest value, dilation the smallest, on
+    # every path); the element is a view into non-zero memory, so that a path which looks at "its centre" reads a foreign 1
+    for i in range(40 if ctx.tier == "quick" else 400):
+        dtype = rng.choice(["bool", "bool", "bool", "uint8", "int16"])
+        nd = rng.choice([1, 2, 2, 2, 3])
+        shape = [rng.randint(1, 6) for _ in range(nd)]
+        bsh = [rng.choice([1, 2, 3]) for _ in range(nd)]
+        bsh[rng.randrange(nd)] = 0
+        if rng.random() < 0.3:
+            bsh[rng.randrange(nd)] = 0
+        yield {"op": rng.choice(["erode", "dilate"]), "dtype": dtype, "shape": shape, "vals": gen.rand_values(rng, dtype, gen.size(shape)),
+               "bshape": bsh, "bvals": [], "regular": False, "kind": "zero-axis", "layout": rng.choice(["C", "C", "C", "F", "strided"]),
+               "blayout": "zeroview"}
     n = 900 if ctx.tier == "quick" else 12000
     for i in range(n):
         dtype = rng.choice(gen.INT_DTYPES + ["bool", "bool", "uint8", "int8"])
@@ -184,7 +197,12 @@ def run_case(ctx, case):
         return run_default_element(ctx, case, a0)
     b0 = gen.mk(dtype, case["bshape"], case["bvals"])
     a = apply_layout(a0, case["layout"], fill=1)
-    b = apply_layout(b0, case["blayout"], fill=1)
+    if case["blayout"] == "zeroview":
+        big = np.ones([max(d, 2) for d in case["bshape"]], dtype=b0.dtype)
+        b = big[tuple(slice(0, d) for d in case["bshape"])]
+        assert b.shape == b0.shape and b.size == 0
+    else:
+        b = apply_layout(b0, case["blayout"], fill=1)
     op = case["op"]
     keep = a.copy()
     got = getattr(mh, op)(a, b)
